@@ -212,9 +212,7 @@ class DocActions(object):
       # gone from the table, so put the old definition back, with its data, before failing.
       schema_table_info.columns[col_id] = old
       self._engine.rebuild_usercode()
-      restored_column = table.get_column(col_id)
-      for row_id in table.row_ids:
-        restored_column.set(row_id, old_column.raw_get(row_id))
+      table.get_column(col_id).copy_from_column(old_column)
       raise
 
     # Fill in the new column with the values from the old column.
